@@ -36,3 +36,58 @@ package handler
 //@   ensures  implies(old(syncx.limLen(latch)) >= syncx.limCap(latch), served == old(served) && hdrCode[w] == 503)
 //@   ensures_panic syncx.limLen(latch) == old(syncx.limLen(latch)) && old(syncx.limLen(latch)) < syncx.limCap(latch)
 //@   call ServeHTTP#0: assert syncx.limLen(latch) == old(syncx.limLen(latch)) + 1 && syncx.limLen(latch) <= syncx.limCap(latch)
+
+// ---------------------------------------------------------------------------------------------
+// C04 timeout middleware. wTouched[w] counts every use of the real ResponseWriter; bufLen[addr(tw.wbuf)] is the size of
+// the private buffer. Lock invariant / guarded fields of tw.mu: timedOut, wroteHeader, code.
+// ---------------------------------------------------------------------------------------------
+//@ lockinv (tw *timeoutWriter) mu
+//@ guarded_by timedOut, wroteHeader, code
+
+//@ func checkWriteHeaderCode
+//@   property C04
+//@   ensures 100 <= code && code <= 599
+//@   ensures_panic code < 100 || code > 599
+//@   modifies nothing
+
+//@ func (tw *timeoutWriter) writeHeaderLocked
+//@   property C04
+//@   requires held(tw.mu)
+//@   flag returns_locked
+//@   ensures  implies(old(tw.timedOut) || old(tw.wroteHeader), tw.wroteHeader == old(tw.wroteHeader) && tw.code == old(tw.code))
+//@   ensures  implies(!old(tw.timedOut) && !old(tw.wroteHeader), tw.wroteHeader && tw.code == code)
+//@   ensures  tw.timedOut == old(tw.timedOut) && wTouched[tw.w] == old(wTouched[tw.w])
+//@   ensures_panic code < 100 || code > 599
+//@   modifies tw.wroteHeader, tw.code
+
+// nothing the handler does through the wrapper touches the real writer; after the timeout nothing is accepted any more
+//@ func (tw *timeoutWriter) Write
+//@   property C04
+//@   flag old_at_lock
+//@   results n, err
+//@   ensures  wTouched[tw.w] == old(wTouched[tw.w])
+//@   ensures  implies(old(tw.timedOut), n == 0 && err == http.ErrHandlerTimeout && bufLen[addr(tw.wbuf)] == old(bufLen[addr(tw.wbuf)]) && tw.code == old(tw.code) && tw.wroteHeader == old(tw.wroteHeader))
+//@   ensures  implies(!old(tw.timedOut), bufLen[addr(tw.wbuf)] == old(bufLen[addr(tw.wbuf)]) + len(p))
+//@   ensures  tw.timedOut == old(tw.timedOut)
+
+//@ func (tw *timeoutWriter) WriteHeader
+//@   property C04
+//@   flag old_at_lock
+//@   ensures  wTouched[tw.w] == old(wTouched[tw.w]) && tw.timedOut == old(tw.timedOut)
+//@   ensures  implies(old(tw.timedOut), tw.code == old(tw.code) && tw.wroteHeader == old(tw.wroteHeader))
+//@   ensures_panic code < 100 || code > 599
+
+//@ func (tw *timeoutWriter) Header
+//@   property C04
+//@   ensures result == tw.h && wTouched[tw.w] == old(wTouched[tw.w])
+//@   modifies nothing
+
+// an explicit Flush after the timeout writes nothing to the client (F7)
+//@ func (tw *timeoutWriter) Flush
+//@   property C04
+//@   flag old_at_lock
+//@   ensures  implies(old(tw.timedOut), wTouched[tw.w] == old(wTouched[tw.w]) && bufLen[addr(tw.wbuf)] == old(bufLen[addr(tw.wbuf)]))
+//@   loop 0: invariant true
+//@ func relevantCaller
+//@   trusted
+//@   modifies nothing
